@@ -233,7 +233,7 @@ impl Ctx {
         self.st.count(&format!("enc.bf{}.{}", bf, tag));
         let key = format!("enc bf={} set={:?}", bf, rs);
         let n = count(rs);
-        if !self.big && n <= 1100 {
+        if !self.big && n <= 300 {
             match &res {
                 Ok(b) => self.cw.push(format!("CEnc {} {} false {}", bf, cranges(rs), cbytes(b))),
                 Err(_) => self.cw.push(format!("CEnc {} {} true []", bf, cranges(rs))),
@@ -492,6 +492,8 @@ fn main() {
         vec![(0, 7)],
         vec![(0, 31)],
         vec![(0, 1023)],
+        vec![(0, 255)],
+        vec![(256, 511), (4096, 4159)],
         vec![(u32::MAX as u64 - 31, u32::MAX as u64)],
         vec![(u32::MAX as u64 - 1023, u32::MAX as u64)],
         vec![((1 << 31) - 1, 1 << 31)],
@@ -526,7 +528,7 @@ fn main() {
     let n_sets = if thorough { 4000 } else { 330 };
     let mut encoded: Vec<(Vec<u8>, Ranges)> = vec![];
     for _ in 0..n_sets {
-        let (rs, tag) = gen_set(&mut rng, 1024);
+        let (rs, tag) = gen_set(&mut rng, if rng.chance(1, 6) { 1024 } else { 280 });
         for bf in [2u8, 4, 8, 32, 0] {
             if let Some(b) = cx.enc_case(bf, &rs, &mut rng, tag) {
                 if b.len() <= 300 {
